@@ -10,8 +10,9 @@
 
        forall c ops, wf c ops = true -> oracle c ops (lrun c ops) = true
 
-   It is FALSE of the faithful model (and of the code) on one input class, with a witness:
+   It is FALSE of the faithful model (and of the code) on two input classes, each with a witness:
      C17_disconnect_in_wait_refuted      (F3) connection lost during the descriptor wait: listen() never fires, listener stays
+     C17_stealth_several_clients_refuted (F4) stealth authentication with several clients: the address reports no hostname
    Repaired in /repo and now covered by the theorems (regression anchors on the old witnesses):
      C17_late_refusal_now_accepted       (was F1, fix 64ae05b) version 3 + RSA1024 key: constructor and string parser refuse at once
      C17_string_route_now_accepted       (was F2, fix d08dcab) onion:...hiddenServiceDir=..:singleHop=true refused by the parser
@@ -25,9 +26,9 @@
      for the whole (finite) option space of the three routes (972 + 324 + 2100 requests), any ports, any script:
        C17_invalid_refused_early           an invalid combination is refused by the constructing call and nothing at
                                            all has happened by then (and C17_valid_constructed: a valid one is constructed)
-     for the finite product  option space x {config ready, pending} x {bind ok, fails} x 16 fault scripts,
+     for the finite product  option space x {one, two clients} x {config ready, pending} x {bind ok, fails} x 16 fault scripts,
      public port 80, bound port 45017 (bounds stated in the theorem):
-       C17_oracle_on_fault_product_partial the full statement outside F3 *)
+       C17_oracle_on_fault_product_partial the full statement outside F3 and F4 *)
 From Coq Require Import List Bool Arith NArith.
 From TxVerif Require Import Lib.ListSet Spec.C15 Spec.C17 Model.DescUpload Model.Listen Proofs.C15Proofs Proofs.C17Proofs.
 Import ListNotations.
@@ -49,8 +50,8 @@ Theorem C17_resolves_after_descriptor : forall c q ops m op pp oo,
 Proof. intros c q ops. exact (listen_follows_create c q ops). Qed.
 Print Assumptions C17_resolves_after_descriptor.
 
-Theorem C17_invalid_refused_early : forall r pub bound pend bind ops,
-  let c := {| g_route := r; g_pub := pub; g_bound := bound; g_pending := pend; g_bind_ok := bind |} in
+Theorem C17_invalid_refused_early : forall r pub bound pend bind two ops,
+  let c := {| g_route := r; g_pub := pub; g_bound := bound; g_pending := pend; g_bind_ok := bind; g_two_clients := two |} in
   valid c = false -> lrun c ops = [{| l_evs := [ORefused]; l_open := 0 |}].
 Proof. exact invalid_refused_early. Qed.
 Print Assumptions C17_invalid_refused_early.
@@ -59,10 +60,10 @@ Theorem C17_valid_constructed : forall r, accepted_ok r = true.
 Proof. exact accepted_ok_all. Qed.
 Print Assumptions C17_valid_constructed.
 
-Theorem C17_oracle_on_fault_product_partial : forall r pend bind ops,
+Theorem C17_oracle_on_fault_product_partial : forall r pend bind two ops,
   In ops fault_scripts ->
-  let c := {| g_route := r; g_pub := 80; g_bound := 45017; g_pending := pend; g_bind_ok := bind |} in
-  wf c ops = true -> disconnect_while_waiting c ops = false ->
+  let c := {| g_route := r; g_pub := 80; g_bound := 45017; g_pending := pend; g_bind_ok := bind; g_two_clients := two |} in
+  wf c ops = true -> disconnect_while_waiting c ops = false -> stealth_several_clients c = false ->
   oracle c ops (lrun c ops) = true.
 Proof. exact oracle_on_product. Qed.
 Print Assumptions C17_oracle_on_fault_product_partial.
@@ -71,6 +72,22 @@ Theorem C17_disconnect_in_wait_refuted :
   exists c ops, wf c ops = true /\ oracle c ops (lrun c ops) = false.
 Proof. exact disconnect_in_wait_refuted. Qed.
 Print Assumptions C17_disconnect_in_wait_refuted.
+
+Theorem C17_stealth_several_clients_refuted :
+  exists c ops, wf c ops = true /\ disconnect_while_waiting c ops = false /\ oracle c ops (lrun c ops) = false.
+Proof. exact stealth_two_clients_refuted. Qed.
+Print Assumptions C17_stealth_several_clients_refuted.
+
+(* basic authentication with two clients (one shared hostname): the address reports it *)
+Theorem C17_basic_two_clients_reported :
+  let c := {| g_route := RCtor {| a_eph := TNone; a_hsdir := false; a_auth := ABasic; a_stealth_kw := false;
+                                  a_key := KNone; a_ver := V2; a_single := TNone |};
+              g_pub := 80; g_bound := 45017; g_pending := false; g_bind_ok := true; g_two_clients := true |} in
+  let ops := [LDesc Reply; LDesc (Ev KUpload 1 1); LDesc (Ev KUploaded 1 1)] in
+  oracle c ops (lrun c ops) = true
+  /\ flat_map (fun r => results (l_evs r)) (lrun c ops) = [LOk true true true].
+Proof. exact basic_two_clients_reported. Qed.
+Print Assumptions C17_basic_two_clients_reported.
 
 (* ---- regression anchors: the witnesses of the repaired findings are refused at once now ---- *)
 Theorem C17_late_refusal_now_accepted :
@@ -98,7 +115,7 @@ Print Assumptions C17_string_route_now_accepted.
 Example C17_nonvacuous :
   let c := {| g_route := RCtor {| a_eph := TNone; a_hsdir := true; a_auth := AStealth; a_stealth_kw := false;
                                   a_key := KNone; a_ver := V2; a_single := TNone |};
-              g_pub := 443; g_bound := 45017; g_pending := true; g_bind_ok := true |} in
+              g_pub := 443; g_bound := 45017; g_pending := true; g_bind_ok := true; g_two_clients := false |} in
   let ops := [LCfgOk; LDesc Reply; LDesc (Ev KUpload 1 1); LDesc (Ev KUpload 1 2); LDesc (Ev KFailed 1 1);
               LDesc (Ev KUploaded 1 2); LStop] in
   wf c ops = true /\ oracle c ops (lrun c ops) = true
